@@ -95,11 +95,13 @@ func (cm *CMap) parseCodeSpaceRange(content string) error {
 		return nil // No codespacerange section
 	}
 
-	endIdx := strings.Index(content[beginIdx:], "endcodespacerange")
+	// the end keyword is looked for behind the begin keyword: the two may not
+	// share characters ("begincodespacerang[e]ndcodespacerange")
+	endIdx := strings.Index(content[beginIdx+len("begincodespacerange"):], "endcodespacerange")
 	if endIdx == -1 {
 		return nil
 	}
-	endIdx += beginIdx
+	endIdx += beginIdx + len("begincodespacerange")
 
 	// Extract section content
 	section := content[beginIdx+len("begincodespacerange") : endIdx]
@@ -152,11 +154,13 @@ func (cm *CMap) parseBfChar(content string) error {
 		}
 		beginIdx += start
 
-		endIdx := strings.Index(content[beginIdx:], "endbfchar")
+		// the end keyword is looked for behind the begin keyword: the two may
+		// not share characters ("beginbfcha[r]ndbfchar")
+		endIdx := strings.Index(content[beginIdx+len("beginbfchar"):], "endbfchar")
 		if endIdx == -1 {
 			break
 		}
-		endIdx += beginIdx
+		endIdx += beginIdx + len("beginbfchar")
 
 		// Extract section content
 		section := content[beginIdx+len("beginbfchar") : endIdx]
@@ -246,11 +250,13 @@ func (cm *CMap) parseBfRange(content string) error {
 		}
 		beginIdx += start
 
-		endIdx := strings.Index(content[beginIdx:], "endbfrange")
+		// the end keyword is looked for behind the begin keyword: the two may
+		// not share characters ("beginbfrang[e]ndbfrange")
+		endIdx := strings.Index(content[beginIdx+len("beginbfrange"):], "endbfrange")
 		if endIdx == -1 {
 			break
 		}
-		endIdx += beginIdx
+		endIdx += beginIdx + len("beginbfrange")
 
 		// Extract section content
 		section := content[beginIdx+len("beginbfrange") : endIdx]
